@@ -10,7 +10,7 @@ DEMO=""
 case "$1" in *.py) DEMO=$(readlink -f "$1"); shift;; esac
 PIDS=${*:-C01 C02 C03 C04 C05 C06 C07 C08 C09 C10 C11 C12 C13 C14 C15 C16 C17 C18 C19 C20}
 WT=/tmp/mut-$$
-git -C /repo worktree add --detach "$WT" HEAD >/dev/null 2>&1 || exit 2
+git -C /repo worktree add --detach "$WT" ${BASE:-HEAD} >/dev/null 2>&1 || exit 2
 cd "$WT" || exit 2
 if [ -n "$DEMO" ]; then
   PYTHONPATH="$WT" timeout 600 /venv/bin/python "$DEMO" >/dev/null 2>&1; echo "demo clean rc=$?"
